@@ -3,6 +3,8 @@ import obl_assembly as A
 
 
 def run(c):
+    import clauses
+    c.only_clauses = clauses.OWN["C11"]
     if A.validate_assembly_concrete(c):
         ct = A.conv_table_for([])
         A.obl_reload(c, ct, thorough=(c.tier == "thorough"), budget_s=1200)
